@@ -4,6 +4,7 @@
 # confirms the existing suite still passes there, runs the named checks against it
 # (expecting VIOLATION), and removes the worktree.  Exit 0 iff at least one check reported a violation.
 patch=$(readlink -f "$1"); tier=$2; shift 2
+here=$(cd "$(dirname "$0")" && pwd)
 export GOFLAGS=-mod=mod GOPROXY=off GOSUMDB=off GOTOOLCHAIN=local
 wt=$(mktemp -d /tmp/mutwt.XXXXXX); rmdir "$wt"
 git -C /repo worktree add --detach "$wt" HEAD >/dev/null 2>&1 || { echo "worktree failed"; exit 3; }
@@ -15,7 +16,7 @@ if echo "$suite" | grep -q -E '^(FAIL|--- FAIL|panic:)'; then echo "SUITE-FAILS-
 echo "suite passes on mutant"
 caught=1
 for id in "$@"; do
-  out=$(cd /verif && VERIF_REPO_DIR="$wt" ./check "$id" "$tier" 2>&1); rc=$?
+  out=$(cd "$here" && VERIF_REPO_DIR="$wt" ./check "$id" "$tier" 2>&1); rc=$?
   echo "$out" | grep -E "VIOLATION|INCONCLUSIVE|evaluations" | cut -c1-400 | head -6
   echo "== $id $tier exit=$rc"
   [ $rc -eq 1 ] && caught=0
